@@ -503,6 +503,10 @@ func passRel(save, p []byte) string {
 		return "empty"
 	case len(save) >= 32 && len(p) >= 32 && bytes.Equal(save[:32], p[:32]):
 		return "same-first-32"
+	case bytes.HasPrefix(p, save) && len(bytes.TrimRight(p[len(save):], "\r\n")) == 0:
+		return "plus-linebreak"
+	case bytes.HasPrefix(save, p) && len(bytes.TrimRight(save[len(p):], "\r\n")) == 0:
+		return "minus-linebreak"
 	case bytes.HasPrefix(save, p):
 		return "prefix"
 	case bytes.HasPrefix(p, save):
@@ -1042,12 +1046,22 @@ type baseSpec struct {
 
 var baseSpecs = []baseSpec{
 	{"create", 0}, {"create", 1}, {"create", 31}, {"create", 32}, {"create", 33}, {"create", 4096}, {"create", -1},
-	{"import", -1}, {"import96", 12},
+	{"import", -1}, {"import96", 12}, {"import", -2}, {"import96", -2}, // -2: a passphrase that ends in a line break (read from a file / piped in)
 	{"legacy", 1}, {"legacy", 5}, {"legacy", 31}, {"legacy", 32}, {"legacy", 40}, {"legacy", 4096},
 }
 
 func wrongPass(r *rand.Rand, save []byte) []byte {
-	switch k := r.Intn(8); {
+	switch k := r.Intn(10); {
+	case k == 8: // the saved passphrase followed by a line break
+		return append(cp(save), lineBreaks[r.Intn(len(lineBreaks))]...)
+	case k == 9: // the saved passphrase without its trailing line break(s), or with a CR
+		if t := bytes.TrimRight(save, "\r\n"); len(t) < len(save) {
+			if r.Intn(3) == 0 {
+				return cp(save[:len(save)-1])
+			}
+			return cp(t)
+		}
+		return append(cp(save), '\r')
 	case k == 0 && len(save) > 0:
 		return []byte{}
 	case k == 1 && len(save) > 0:
@@ -1166,7 +1180,7 @@ func genHistory(r *rand.Rand, seed int64, c int, b *baseInfo, others []*baseInfo
 		h.Op = "export"
 	default:
 		h.Op = "export-import"
-		h.Pass2 = genPass(r, []int{0, 1, 8, 31, 32, 33, 100}[r.Intn(7)])
+		h.Pass2 = withLineBreak(r, genPass(r, []int{0, 1, 8, 31, 32, 33, 100}[r.Intn(7)]))
 		if r.Intn(4) > 0 { // mostly on the intact file with the right passphrase, so that the import is reached
 			h.Mut = Mut{Kind: "none"}
 			h.Pass = cp(b.pass)
@@ -1279,6 +1293,9 @@ func TestVerif(t *testing.T) {
 				n = 6 + r.Intn(20)
 			}
 			pass := genPass(r, n)
+			if sp.plen == -2 {
+				pass = append(pass, lineBreaks[r.Intn(len(lineBreaks))]...)
+			}
 			txt, err := makeBase(sp.kind, pass, r)
 			if err != nil {
 				t.Fatalf("making base %v: %v", sp, err)
@@ -1313,7 +1330,7 @@ func TestVerif(t *testing.T) {
 				}
 			case c%20 == 19:
 				n := []int{0, 1, 31, 32, 33, 4096, 10}[r.Intn(7)]
-				sp := genPass(r, n)
+				sp := withLineBreak(r, genPass(r, n))
 				h = History{Seed: e.Seed, Case: c, BaseKind: "create", SavePass: sp, Op: "create-load", Pass: cp(sp), Mut: Mut{Kind: "none"}}
 				if r.Intn(3) == 0 {
 					h.Pass = wrongPass(r, sp)
@@ -1494,7 +1511,7 @@ func TestVerif(t *testing.T) {
 		}
 	}
 	res.Distinct = len(distinct)
-	res.Rule = "one history = a key file made by the real code (Create / Import of a 64- or 96-byte key / hand-built legacy salt-less file) under a passphrase of 0,1,31,32,33,4096 or a random number of bytes; a corruption (single-byte substitution by '=', another base64 character or an arbitrary byte; truncation; a decoded field replaced, shortened, extended, bit-flipped, emptied, nulled or swapped with another key's; arbitrary text; missing file); a passphrase (the right one, empty, prefix, extension, one bit flipped, same first 32 bytes, unrelated); an operation (load, export, create+load, export+import+load where the import path is empty or already holds a current-format file saved under the same / another passphrase, a legacy salt-less file, a file with the salt removed, a corrupted, truncated or empty file, {} / null, unrelated files, or is the source path itself); N/10 further histories over ONE path: a file made by Create / Import / in the legacy salt-less format (or a free path and a Create), then 3-10 steps out of load, export, export + import of what came out under a new passphrase over the same path, import of a new key, import of bytes that are no key, create on the occupied path, each with the right passphrase or an all-zero one of the same length, the empty one, 33 / 4096 bytes, a prefix, one bit flipped, the passphrase in force before the last re-seal, an extension, an unrelated one; after every step the file is read back and compared with the model's, and when its text changed a copy is probed with the real code (opens with exactly the passphrase it was last sealed with); signing sessions of 3-8 Sign calls on the loaded signers (fresh slices, one buffer re-used, rewritten in place incl. truncated copies, a prefix of it, the same bytes again), every signature checked under GetPublic for the bytes at the time of the call. thorough tier: additionally every position x 3 replacement classes and every truncation of one base per shard. non-trivial = the file still parses (the operation reaches key derivation) and it is not the plain right-passphrase round trip; distinct = distinct (base kind, mutation kind, region of the file hit, passphrase relation, operation, passphrase length classes, outcome class)"
+	res.Rule = "one history = a key file made by the real code (Create / Import of a 64- or 96-byte key / hand-built legacy salt-less file) under a passphrase of 0,1,31,32,33,4096 or a random number of bytes; a corruption (single-byte substitution by '=', another base64 character or an arbitrary byte; truncation; a decoded field replaced, shortened, extended, bit-flipped, emptied, nulled or swapped with another key's; arbitrary text; missing file); a passphrase (the right one, empty, prefix, extension, one bit flipped, same first 32 bytes, unrelated); an operation (load, export, create+load, export+import+load where the import path is empty or already holds a current-format file saved under the same / another passphrase, a legacy salt-less file, a file with the salt removed, a corrupted, truncated or empty file, {} / null, unrelated files, or is the source path itself); N/10 further histories over ONE path: a file made by Create / Import / in the legacy salt-less format (or a free path and a Create), then 3-10 steps out of load, export, export + import of what came out under a new passphrase over the same path, import of a new key, import of bytes that are no key, create on the occupied path, each with the right passphrase or an all-zero one of the same length, the empty one, 33 / 4096 bytes, a prefix, one bit flipped, the passphrase in force before the last re-seal, an extension, an unrelated one; one new passphrase in four ends in a line break (LF, CRLF, CR, ...), wrong passphrases include the sealed one plus / minus a trailing line break; FAULTS between the steps (the file truncated, emptied, deleted, a structural byte or a base64 character of a value replaced, replaced by other text; 45% of the histories: 0-2 imports of a new key, a fault, load with the passphrase in force and with the one in force before the rotation, an export, sometimes a new import) - a file whose decoded content a fault changed must neither load nor export; after every step the file is read back and compared with the model's, and when its text changed a copy is probed with the real code (opens with exactly the passphrase it was last sealed with); signing sessions of 3-8 Sign calls on the loaded signers (fresh slices, one buffer re-used, rewritten in place incl. truncated copies, a prefix of it, the same bytes again), every signature checked under GetPublic for the bytes at the time of the call. thorough tier: additionally every position x 3 replacement classes and every truncation of one base per shard. non-trivial = the file still parses (the operation reaches key derivation) and it is not the plain right-passphrase round trip; distinct = distinct (base kind, mutation kind, region of the file hit, passphrase relation, operation, passphrase length classes, outcome class)"
 	res.Cases = len(cases)
 	header := "From Coq Require Import String NArith List Bool.\nFrom Verif Require Import Model.KeyFile Check.KeyFileCheck."
 	path := filepath.Join(e.Out, "cases_C19.v")
